@@ -1538,6 +1538,12 @@ func (p *Parser) parseIndex(leftNode ast.Node) ast.Node {
 	if !p.peekTokenIs(token.COLON) {
 		p.nextToken() // move to the first index
 		firstIndex = p.parseExpression(LOWEST)
+		if firstIndex == nil {
+			if p.err == nil {
+				p.setTokenError(p.curToken, "invalid index expression")
+			}
+			return nil
+		}
 		if p.peekTokenIs(token.RBRACKET) {
 			p.nextToken() // move to the "]"
 			return ast.NewIndex(indexToken, left, firstIndex)
@@ -1551,6 +1557,12 @@ func (p *Parser) parseIndex(leftNode ast.Node) ast.Node {
 		}
 		p.nextToken() // move to the second index
 		secondIndex = p.parseExpression(LOWEST)
+		if secondIndex == nil {
+			if p.err == nil {
+				p.setTokenError(p.curToken, "invalid index expression")
+			}
+			return nil
+		}
 	}
 	if !p.expectPeek("an index expression", token.RBRACKET) {
 		return nil
